@@ -384,6 +384,8 @@ class C05(Prop):
     # bookkeeping skeleton of the model (limit test, FIFO queue, hand-over of the slot, completion condition), both
     # flavours; MultiSubscription.append from src/subscription.rs
     tie_modules = {
+        # critical sections read off the source (rs2lean/src/holds.rs): which calls are made while which shared cell is held — the policies (P3: merge_all starts an inner observable with its state cell released)
+        "RxModel.GenTie.Holds": [],
         "RxModel.GenTie.MergeAll": [],
         "RxModel.GenTie.MergeAllThreads": [],
     }
